@@ -285,7 +285,7 @@ def leak_key(exc, phase):
 def check_item(item):
     """item = (sql, dialect, levels tuple).  -> (counts, nontrivial, violations, steps)
     violations: list of (key, what, input dict)."""
-    sql, dialect, levels = item
+    sql, dialect, levels, *more = item  # optional 4th element: one more generation target
     viol = []
     n_tok_calls = n_parse = n_gen = 0
     m = len(sql)
@@ -312,7 +312,7 @@ def check_item(item):
     p_lim = budget(ntok)
 
     targets = []
-    for w in [dialect] + EXTRA_TARGETS:
+    for w in [dialect] + EXTRA_TARGETS + list(more[:1]):
         if w not in targets:
             targets.append(w)
 
@@ -686,6 +686,12 @@ def loop_construct_items(tier):
     return list(dict.fromkeys(out))
 
 
+def observed_items():
+    from bounded.c05_observed import OBSERVED_LEAKS
+
+    return [(sql, r, tuple(LEVELS), w) for sql, r, w in OBSERVED_LEAKS]
+
+
 def items_for(tier):
     ds = corpus.dialects()
     others = [d for d in ds if d != ""]
@@ -693,6 +699,9 @@ def items_for(tier):
     ign = ("IGNORE",)
     items = []
     stats = {}
+    ob = observed_items()
+    items += ob
+    stats["observed_leak_statements"] = len(ob)
     # A. unmutated statements: all dialects, all four levels
     a = [(s, d, all4) for s in corpus.STATEMENTS for d in ds]
     items += a
@@ -789,7 +798,7 @@ def run(tier, seed):
     killed = 0
     worst_p = worst_t = 0.0
     for item, r in zip(work, res):
-        sql, dialect, levels = item
+        sql, dialect, levels = item[:3]
         if r == KILLED:
             killed += 1
             key = "c05:hang:any:killed-by-watchdog" + scaling_tag(sql)
@@ -852,7 +861,7 @@ def _replay_job(item):
 def replay(entry):
     inp = entry["input"]
     levels = (inp["level"],) if inp.get("level") else tuple(inp.get("levels") or LEVELS)
-    item = (inp["sql"], inp.get("dialect", ""), levels)
+    item = (inp["sql"], inp.get("dialect", ""), levels) + ((inp["target"],) if inp.get("target") not in (None, "", "duckdb", inp.get("dialect", "")) else ())
     r = guarded_map(_replay_job, [item], batch=1, workers=1)[0]
     if r == KILLED:
         keys = ["c05:hang:any:killed-by-watchdog" + scaling_tag(inp["sql"])]
